@@ -208,6 +208,7 @@ Json plan_to_json(const Plan &p) {
   static const char *beh[] = {"inaccessible", "garbage", "zeros"};
   w.set("behind_file_mapping", beh[p.world.behind % 3]);
   w.set("step_budget", p.world.step_budget);
+  if (p.world.max_anon) w.set("mapping_limit", p.world.max_anon);
   if (p.probe) w.setb("probe_options_after_setters", true);
   if (p.recover) w.setb("recover_after_fault", true);
   if (p.world.sabotage) w.set("sabotage", p.world.sabotage);
@@ -277,6 +278,7 @@ bool plan_from_json(const Json &j, Plan &p, std::string *err) {
     std::string b = w->str("behind_file_mapping", "inaccessible");
     p.world.behind = b == "garbage" ? 1 : b == "zeros" ? 2 : 0;
     p.world.step_budget = (long)w->num("step_budget", 20000000);
+    p.world.max_anon = (long)w->num("mapping_limit");
     p.probe = w->boolean("probe_options_after_setters");
     p.recover = w->boolean("recover_after_fault");
     p.world.sabotage = (int)w->num("sabotage");
@@ -355,6 +357,7 @@ uint64_t plan_hash(const Plan &p) {
   mixi((uint64_t)p.world.mem_policy);
   mixi(p.world.salt);
   mixi((uint64_t)p.world.behind);
+  if (p.world.max_anon) mixi((uint64_t)p.world.max_anon);
   mixi((uint64_t)p.world.sabotage * 2 + (uint64_t)p.world.fd0_free + ((uint64_t)p.world.fd_limit << 8));
   mixi((uint64_t)p.probe * 2 + (uint64_t)p.recover);
   for (const FileSpec &f : p.world.files) {
